@@ -313,11 +313,13 @@ func c02Run(c *Case) {
 func init() {
 	register(&Prop{
 		ID: "C02", Level: "exploration",
-		Rule: "enumerated: every sequence of 1-3 rule kinds (155) x {no action, next at rule i, exit at rule i} x 4 root shapes (array, object with array member, scalar, empty array) x {1,2} values x {0,2} selectors; sampled: 1-8 rules in random source order, 1-3 files x 0-3 values (9 root shapes, varied separators) x 0-3 selectors, patterns of every truth value, bodies printing tag/$file/$index/$, next/exit placed unconditionally and data-dependent, rules without body. Oracle: stdout trace and the sequence of rule activations (hook verifRule) vs the schedule model of DESIGN 3.7. Non-trivial = at least 2 rule activations (sampled: >= 2 kinds active and a pattern rule); distinct by configuration + program text.",
+		Rule:          "enumerated: every sequence of 1-3 rule kinds (155) x {no action, next at rule i, exit at rule i} x 4 root shapes (array, object with array member, scalar, empty array) x {1,2} values x {0,2} selectors; sampled: 1-8 rules in random source order, 1-3 files x 0-3 values (9 root shapes, varied separators) x 0-3 selectors, patterns of every truth value, bodies printing tag/$file/$index/$, next/exit placed unconditionally and data-dependent, rules without body. Oracle: stdout trace and the sequence of rule activations (hook verifRule) vs the schedule model of DESIGN 3.7. Non-trivial = at least 2 rule activations (sampled: >= 2 kinds active and a pattern rule); distinct by configuration + program text.",
 		NumCases:      c02Cases,
 		Run:           c02Run,
 		MinConclusive: func(tier string) int { return 20000 },
-		Exhaustive:    func(tier string) string { return "rule-kind sequences of length <= 3 x action placement x root shape x values x selectors (17360 configurations)" },
-		Assumptions:   []string{"schedule of DESIGN.md section 3.7", "$index on non-array roots, next outside pattern rules and $ in ENDFILE after BEGINFILE reassigns it are unspecified ([P]) and not generated"},
+		Exhaustive: func(tier string) string {
+			return "rule-kind sequences of length <= 3 x action placement x root shape x values x selectors (17360 configurations)"
+		},
+		Assumptions: []string{"schedule of DESIGN.md section 3.7", "$index on non-array roots, next outside pattern rules and $ in ENDFILE after BEGINFILE reassigns it are unspecified ([P]) and not generated"},
 	})
 }
